@@ -26,24 +26,24 @@ UFN = "normal/merge replaced by uninterpreted functions"
 K("k_blend_channel", B, "blend_channel(b,s,o,f) == normal(b,(f(Br,Sr),f(Bg,Sg),f(Bb,Sb),Sa),o) for every f and normal",
   ["blend::blend_channel"], replayable=False, bound=UFN)
 K("k_blender", B, "blender(b,s,o,F) == RGBA_BLENDER_N structure over every F, normal, merge", ["blend::blender"],
-  replayable=False, bound=UFN)
+  replayable=False, bound=UFN, witness="x_blend_public_api")
 MODES = [("multiply", 1), ("screen", 2), ("overlay", 3), ("darken", 4), ("lighten", 5), ("color_dodge", 6), ("color_burn", 7),
          ("hard_light", 8), ("difference", 10), ("exclusion", 11), ("addition", 16), ("subtract", 17), ("divide", 18)]
 UFC = "normal/merge replaced by their CONTRACTS (clauses proved by k_normal_alpha, k_merge); other callees uninterpreted"
 for m, i in MODES:
     K("k_mode_" + m, B, "%s(b,s,o) == rgba_blender_%s_n(b,s,o) modulo normal/merge/channel fn (each proved equal to the reference separately)" % (m, m),
-      ["blend::" + m, "blend::%s_baseline" % m, "blend::blender", "blend::blend_channel"], replayable=False, witness="blend:%d" % i, bound=UFN)
+      ["blend::" + m, "blend::%s_baseline" % m, "blend::blender", "blend::blend_channel"], replayable=False, witness="x_blend_public_api", bound=UFN)
     K("k_law_" + m, B, "%s obeys the C17 laws (alpha == Normal alpha; transparent source / zero opacity keeps backdrop; transparent backdrop gives scaled source)" % m,
-      ["blend::" + m, "blend::blender"], replayable=False, witness="laws:%d" % i, bound=UFC, depends=["k_normal_alpha", "k_merge", "k_blend8"])
+      ["blend::" + m, "blend::blender"], replayable=False, witness="x_blend_public_api", bound=UFC, depends=["k_normal_alpha", "k_merge", "k_blend8"])
 K("k_mode_soft_light", B, "soft_light: integer skeleton == RGBA_BLENDER_N around the per-channel f64 kernel (kernel uninterpreted, range 0..=255)",
-  ["blend::soft_light", "blend::soft_light_baseline"], replayable=False, witness="blend:9", bound=UFN + "; blend_soft_light uninterpreted")
-K("k_law_soft_light", B, "soft_light obeys the C17 laws", ["blend::soft_light"], replayable=False, witness="laws:9", bound=UFC,
+  ["blend::soft_light", "blend::soft_light_baseline"], replayable=False, witness="x_blend_public_api", bound=UFN + "; blend_soft_light uninterpreted")
+K("k_law_soft_light", B, "soft_light obeys the C17 laws", ["blend::soft_light"], replayable=False, witness="x_blend_public_api", bound=UFC,
   depends=["k_normal_alpha", "k_merge", "k_blend8", "k_ch_soft_light_range"])
 for m, i in [("hsl_hue", 12), ("hsl_saturation", 13), ("hsl_color", 14), ("hsl_luminosity", 15)]:
     K("k_mode_" + m, B, "%s: which f64 kernel is applied to backdrop / source, alpha pass-through, RGBA_BLENDER_N around it (kernels uninterpreted)" % m,
-      ["blend::" + m, "blend::%s_baseline" % m], replayable=False, witness="blend:%d" % i, bound=UFN + "; luminosity/saturation/set_saturation/set_luminocity/from_rgb_f64 uninterpreted")
+      ["blend::" + m, "blend::%s_baseline" % m], replayable=False, witness="x_blend_public_api", bound=UFN + "; luminosity/saturation/set_saturation/set_luminocity/from_rgb_f64 uninterpreted")
     K("k_law_" + m, B, "%s obeys the C17 laws (f64 kernels uninterpreted: alpha never flows through f64)" % m, ["blend::" + m], replayable=False,
-      witness="laws:%d" % i, bound=UFC, depends=["k_normal_alpha", "k_merge", "k_blend8", "k_pack_f64"])
+      witness="x_blend_public_api", bound=UFC, depends=["k_normal_alpha", "k_merge", "k_blend8", "k_pack_f64"])
 K("k_pack_i32", B, "as_rgba_i32 / from_rgba_i32 are exact inverses on u8 channels", ["blend::as_rgba_i32", "blend::from_rgba_i32"])
 K("k_pack_f64", B, "from_rgb_f64 on channel values in [0,1]: no debug assertion, truncation toward zero, alpha passes through",
   ["blend::from_rgb_f64"], replayable=False)
